@@ -82,7 +82,7 @@ fn intended(rec: &Rec, root: &Path, port_override: Option<String>) -> Vec<String
     let mut v = vec![
         format!("home_network:{},", b("options.home_network")),
         format!("upnp:{},", b("options.upnp")),
-        format!("log_output_dest:Path(\"{}\",),", sub(rec.some("service_log_dir_path").unwrap_or_default())),
+        format!("log_output_dest:Path({:?},),", sub(rec.some("service_log_dir_path").unwrap_or_default())),
         match rec.some("options.log_format").as_deref() {
             Some("json") => "log_format:Some(Json,),".to_string(),
             Some("default") => "log_format:Some(Default,),".to_string(),
@@ -92,12 +92,13 @@ fn intended(rec: &Rec, root: &Path, port_override: Option<String>) -> Vec<String
         format!("max_archived_log_files:{}", opt_num("options.max_archived_log_files")),
         format!("network_id:{}", opt_num("options.network_id")),
         format!("rewards_address:Some(\"{}\",),", rec.some("options.rewards_address").unwrap_or_default()),
-        format!("root_dir:Some(\"{}\",),", sub(rec.some("service_data_dir_path").unwrap_or_default())),
+        format!("root_dir:Some({:?},),", sub(rec.some("service_data_dir_path").unwrap_or_default())),
         format!(",port:{},", port_override.or_else(|| rec.some("node_port")).unwrap_or_else(|| "0".into())),
         format!(",ip:{},", rec.some("options.node_ip").unwrap_or_else(|| "0.0.0.0".into())),
         format!("rpc:Some({},),", rec.some("rpc_socket_addr").unwrap_or_default()),
-        match rec.some("owner") {
-            Some(o) => format!("owner:Some(\"{o}\",),"),
+        match rec.some("options.owner") {
+            // intended: the owner in lower case (Unicode), as documented by `antctl add`
+            Some(o) => format!("owner:Some({:?},),", o.to_lowercase()),
             None => "owner:None,".into(),
         },
         format!("metrics_server_port:{},", rec.some("metrics_free_port").unwrap_or_else(|| "0".into())),
@@ -107,7 +108,7 @@ fn intended(rec: &Rec, root: &Path, port_override: Option<String>) -> Vec<String
         if l.is_empty() {
             "[],".to_string()
         } else {
-            format!("[{}],", l.iter().map(|x| if quote { format!("\"{x}\",") } else { format!("{x},") }).collect::<String>())
+            format!("[{}],", l.iter().map(|x| if quote { format!("{x:?},") } else { format!("{x},") }).collect::<String>())
         }
     };
     v.push(format!(
@@ -119,11 +120,11 @@ fn intended(rec: &Rec, root: &Path, port_override: Option<String>) -> Vec<String
         b("options.peers_args.disable_mainnet_contacts"),
         b("options.peers_args.ignore_cache"),
         match rec.some("options.peers_args.bootstrap_cache_dir") {
-            Some(d) => format!("Some(\"{}\",),", sub(d)),
+            Some(d) => format!("Some({:?},),", sub(d)),
             None => "None,".into(),
         }
     ));
-    v.push(match rec.get("options.evm_network") {
+    let v_evm = match rec.get("options.evm_network") {
         Some("e:ArbitrumOne") => "evm_network:Some(EvmArbitrumOne,),".to_string(),
         Some("e:ArbitrumSepolia") => "evm_network:Some(EvmArbitrumSepolia,),".to_string(),
         _ => format!(
@@ -132,8 +133,10 @@ fn intended(rec: &Rec, root: &Path, port_override: Option<String>) -> Vec<String
             rec.some("options.evm_network.payment_token_address").unwrap_or_default(),
             rec.some("options.evm_network.data_payments_address").unwrap_or_default()
         ),
-    });
-    v
+    };
+    v.push(v_evm);
+    // the dump is compared with all white space removed
+    v.into_iter().map(|f| f.chars().filter(|c| !c.is_whitespace()).collect()).collect()
 }
 
 /// the PeersArgs rules antctl's own parser enforces on its input
@@ -212,7 +215,11 @@ fn main() {
         };
         let built = catch_unwind(AssertUnwindSafe(|| build_real(&rec, &root, &rt, &rule)));
         let b = match built {
-            Ok(Ok(b)) => b,
+            Ok(Ok(mut bs)) if bs.len() == 1 => bs.remove(0),
+            Ok(Ok(bs)) => {
+                out.line(line.clone(), format!("error {} services", bs.len()));
+                continue;
+            }
             Ok(Err(e)) => {
                 out.line(line.clone(), format!("error {}", e.replace('\n', " ")));
                 out.oracle_fail("builds", &line, &e);
